@@ -71,13 +71,13 @@ class QueueGen:
             cc = rng.choice([0, 1, 2, 3, 4, 5, 7, 8, 9, 16, 17])
             sims = [Sim(cc), None]
             ops = [f"new cap={cc}"]
-            length = rng.randint(1, 90 if focus != "growth" else 500)
+            length = rng.randint(1, 90 if focus != "growth" else 300)
             p_enq = rng.choice([0.3, 0.5, 0.55, 0.7, 0.9])
             if focus in ("growth", "fault"):
                 p_enq = rng.choice([0.6, 0.8, 0.95])
             allow_fail = focus == "all"
             for _ in range(length):
-                r = rng.random()
+                r = rng.random() if focus != "growth" else max(rng.random(), 0.061)
                 q = sims[0]
                 if r < 0.04:
                     ops.append("it_new")
